@@ -127,6 +127,29 @@ def run(P, C):
             its = [x for x in f.walk(d.get("init", -1)) if f.k(x) == "DeclRefExpr" and f.nodes[x]["decl"].get("kind") == "Var"] if d.get("init", -1) >= 0 else []
             if d.get("dk") == "Var" and its:
                 jdef[d["id"]] = f.nodes[its[0]]["decl"]["id"]
+    # ... or `*it` with `it` an iterator of a plain loop over the whole argument: for (it = permutation.begin(); it != permutation.end(); ++it)
+    iters = set()
+    for i in f.walk():
+        if f.k(i) != "ForStmt" or f.nodes[i].get("init", -1) < 0 or f.k(f.nodes[i]["init"]) != "DeclStmt":
+            continue
+        d = f.nodes[f.nodes[i]["init"]]["decls"][0]
+        if d.get("init", -1) < 0:
+            continue
+        it_ = f.render(d["init"]).replace(" ", "")
+        pn = f.params[0]["name"]
+        cond = f.render(f.nodes[i]["cond"]).replace(" ", "") if f.nodes[i].get("cond", -1) >= 0 else ""
+        if it_ in ("%s.begin()" % pn, "%s.cbegin()" % pn) and cond in ("(%s!=%s.end())" % (d["name"], pn), "(%s!=%s.cend())" % (d["name"], pn)):
+            iters.add(d["id"])
+    for i in f.walk():
+        if f.k(i) == "DeclStmt":
+            for d in f.nodes[i]["decls"]:
+                if d.get("dk") == "Var" and d.get("init", -1) >= 0:
+                    e = f.strip(d["init"])
+                    deref = (f.k(e) == "UnaryOperator" and f.nodes[e].get("op") == "*") or (f.k(e) == "CXXOperatorCallExpr" and f.nodes[e].get("opcall") == "*")
+                    if deref:
+                        vs = [f.nodes[y]["decl"].get("id") for y in f.walk(e) if f.k(y) == "DeclRefExpr" and f.nodes[y]["decl"].get("kind") == "Var"]
+                        if len(vs) == 1 and vs[0] in iters:
+                            jdef[d["id"]] = vs[0]          # the entry itself, through the iterator
     li = set(g["il"] for g in gathers)
     ri = set(g["ir"] for g in gathers)
     for g in gathers:
@@ -269,7 +292,11 @@ def run(P, C):
             kinds["wrong-length"] = g
         elif txt == "(ndim <= v0)" and jdef.get(order[0]) is not None:
             kinds["out-of-range"] = g
+        elif txt in ("(ndim <= (*v0))", "(ndim <= v0.operator*())") and order[0] in iters:
+            kinds["out-of-range"] = g
         elif txt in ("v0[v1]", "v0[v1].operator bool()") and jdef.get(order[1]) is not None:
+            kinds["duplicate"] = g
+        elif txt in ("v0[(*v1)]", "v0[(*v1)].operator bool()", "v0[v1.operator*()]", "v0[v1.operator*()].operator bool()") and order[1] in iters:
             kinds["duplicate"] = g
         elif txt in ("(!v0[v1])", "(!v0[v1].operator bool())"):
             kinds["missing"] = g
@@ -292,6 +319,8 @@ def run(P, C):
                         init = f.strip(d["init"], casts=False) if d.get("init", -1) >= 0 else -1
                         src_t = f.nodes[f.strip(d["init"])].get("ct", f.nodes[f.strip(d["init"])].get("t", "")) if d.get("init", -1) >= 0 else ""
                         narrowed = (d.get("ctype", "").replace("const ", ""), src_t.replace("const ", ""))
+    if g is not None and narrowed is None or (g is not None and f.alpha(f.nodes[g["node"]]["cond"])[1] and f.alpha(f.nodes[g["node"]]["cond"])[1][0] in iters):
+        narrowed = ("size_t", "size_t")        # the element itself, through the iterator: no copy that could narrow it
     wide = {"unsigned long": 8, "size_t": 8, "unsigned long long": 8, "long": 8, "unsigned int": 4, "uint32_t": 4, "int": 4}
     okw = narrowed is not None and wide.get(narrowed[0], 0) >= wide.get(narrowed[1], 8)
     C.ob("VG-3", "permuteDimensions", "entry-not-narrowed", okw, f.loc(g["node"]) if g else f.where(),
